@@ -369,6 +369,23 @@ def check_subdistribution(ctx):
         it = kd.generators[0].iter
         ok = norm(it) == q and not kd.generators[0].ifs
         ctx.check(ok, R4, fi.key + ":projection-order", "projected key = outcome[i] for i in the listed qubits, in the listed order", f"projected key iterates {short(it)} instead of the qubit list as given: the listed order is not preserved", f"{fi.module.relpath}:{kd.lineno}")
+    # ... and stays a tuple of the outcome's entries. A key rendered as text is re-read by the constructor (per character
+    # without a comma, split at commas otherwise): an entry of 10 or more comes back as several entries, a one-entry key such
+    # as "12" even with the comma notation -- outcomes are "non-negative integer sequences", not bits
+    parents = {}
+    for n in ast.walk(loop.ast):
+        for ch in ast.iter_child_nodes(n):
+            parents[ch] = n
+    for kd in key_defs:
+        par = parents.get(kd)
+        where_k = f"{fi.module.relpath}:{kd.lineno}"
+        if isinstance(par, ast.Call) and isinstance(par.func, ast.Attribute) and par.func.attr == "join" and isinstance(par.func.value, ast.Constant):
+            sep = par.func.value.value
+            ctx.violation(R4, fi.key + ":key-notation", f"the projected key is rendered as text ({short(par, 70)}) and re-read by the constructor " + ("character by character: an outcome entry of 10 or more is split into its digits, so (10, 2) projected on [0] becomes (1, 0)" if sep == "" else "by splitting at the separator: a projection on a single subsystem has no separator and an entry of 10 or more is split into its digits"), where_k)
+        elif isinstance(par, ast.Call) and dotted(par.func) == "tuple" and not isinstance(kd.elt, ast.Call):
+            ctx.ok(R4, fi.key + ":key-notation", "the projected key is the tuple of the outcome's own entries", where_k)
+        else:
+            ctx.undecided(R4, fi.key + ":key-notation", f"cannot tell what kind of key {short(par if par is not None else kd, 70)} is", where_k)
     # every path through the loop body builds the key that way (no alternative fast path)
     body_keys = [s for s in ast.walk(loop.ast) if isinstance(s, ast.Assign) and isinstance(s.targets[0], ast.Name) and s.targets[0].id in ("new_key",)]
     alt = [s for s in body_keys if not any(kd in list(ast.walk(s.value)) for kd in key_defs)]
